@@ -506,7 +506,7 @@ StructAlphabet ==      \* C16: .repeat bodies (own '.', impure operators, hoiste
     Rep(2, << I1("movx", Neg(Sym("c"))) >>), Rep(3, << I1("movx", Bin("+", Neg(Sym("c")), Num(2))), By(<< Num(1) >>) >>),
     Rep(2, << I1("br", Sym("1")) >>), Rep(2, << Rep(2, << W(<<Dot>>), By(<<Num(1)>>) >>) >>), Rep(3, << [k |-> "even"], By(<< Bin("-", Dot, A) >>) >>),
     Rep(2, << I1("movi", Bin("/", Bin("-", Dot, A), Num(2))), I1("sob", A) >>), Rep(2, << Blkb(Bin("%", Dot, Num(4))) >>),
-    Rep(2, << Lab("z") >>), Rep(2, << Const("z", Num(1)) >>),
+    Rep(2, << Lab("z") >>), Rep(2, << Const("z", Num(1)) >>), Rep(3, << W(<<>>), I0("nop") >>), Rep(2, << By(<<>>), [k |-> "dword", es |-> <<>>] >>),
     [k |-> "insert", len |-> 0], [k |-> "insert", len |-> 7], [k |-> "insert", len |-> 300],
     \* added after the second seeding round: an inserted file named "d.bin" next to the main file (7 bytes) while the included file i3
     \* lives in a sub-directory and inserts ITS "d.bin" (5 other bytes); an includable '.once' file that is also linked
